@@ -424,10 +424,49 @@ def generate():
             or not same_shape(find_def(svc, 'ConfigService.__plugin_generator'),
                               'for plugin in self._plugins:\n    if isinstance(plugin, plugin_type):\n        yield plugin'):
         raise Untranslatable('ConfigService.resource_providers is no longer the type filter of the plugin list')
-    parts.append('/-- `config.resource_providers` (what the resource loop of `Deep.start` iterates) is the plugin list as it\n'
-                 '    was set, filtered by type, in order: no provider is dropped or reordered between configuration and\n'
-                 '    the fold `withPlugins` (read from the source on every run) -/\n'
-                 'def providersAreAllConfigured : Bool := true\n')
+    # the route from configuration to the fold, AS WRITTEN in the source now (a real value compared by the theorem)
+    proute = []
+    for x in ast.walk(start):
+        if isinstance(x, ast.Assign) and ast.unparse(x.targets[0]) in ('self.config.plugins', 'self.config._plugins'):
+            proute.append('Deep.start: ' + ast.unparse(x))
+        if isinstance(x, ast.For) and 'provider' in ast.unparse(x.iter):
+            proute.append('Deep.start: for ' + ast.unparse(x.target) + ' in ' + ast.unparse(x.iter))
+    proute += ['ConfigService.plugins.setter: ' + ast.unparse(x) for x in strip_doc(setters[0].body)]
+    proute += ['ConfigService.plugins: ' + ast.unparse(x) for x in strip_doc(getters[0].body)]
+    proute += ['ConfigService.resource_providers: ' + ast.unparse(x)
+               for x in strip_doc(find_def(svc, 'ConfigService.resource_providers').body)]
+    proute += ['ConfigService.__plugin_generator: ' + ' '.join(ast.unparse(x).split())
+               for x in strip_doc(find_def(svc, 'ConfigService.__plugin_generator').body)]
+    for fn in ast.walk(svc):
+        if isinstance(fn, ast.FunctionDef) and fn not in (setters[0],):
+            for x in ast.walk(fn):
+                if isinstance(x, (ast.Assign, ast.AugAssign)) and any(
+                        ast.unparse(t) == 'self._plugins' for t in (x.targets if isinstance(x, ast.Assign) else [x.target])):
+                    proute.append(f'ConfigService.{fn.name}: ' + ast.unparse(x))
+    parts.append('/-- from the configured plugin list to the providers the resource loop of `Deep.start` folds, AS WRITTEN in the\n'
+                 '    source now: the assignment of the loaded plugins, the loop header, the plugins setter / getter bodies,\n'
+                 '    resource_providers, the type-filter generator, and every other store to `self._plugins` -/\n'
+                 'def providerRoute : List String :=\n  [' + ',\n   '.join(lean_str(r) for r in proute) + ']\n')
+
+    # get_aggregated_resources: the loop as written, and who calls it
+    gar = find_def(res, 'get_aggregated_resources')
+    agg_txt = [' '.join(l.split()) for x in strip_doc(gar.body) for l in ast.unparse(x).splitlines() if l.strip()]
+    callers = []
+    import os as _os
+    import pylean as _pl
+    for dp, dn, fns in sorted(_os.walk(_os.path.join(_pl.REPO, 'src/deep'))):
+        dn.sort()
+        for fn in sorted(fns):
+            if fn.endswith('.py'):
+                tree = ast.parse(open(_os.path.join(dp, fn), encoding='utf-8').read())
+                for x in ast.walk(tree):
+                    if isinstance(x, ast.Call) and ast.unparse(x.func).split('.')[-1] == 'get_aggregated_resources':
+                        callers.append(_os.path.relpath(_os.path.join(dp, fn), _os.path.join(_pl.REPO, 'src')))
+    parts.append('/-- the statements of `get_aggregated_resources` as written now, one line each (indentation dropped) — `Resource.aggregate`\n'
+                 '    is a hand-written reading of exactly this text -/\n'
+                 'def aggregateSource : List String :=\n  [' + ',\n   '.join(lean_str(r) for r in agg_txt) + ']\n')
+    parts.append('/-- files under src/deep that CALL get_aggregated_resources -/\n'
+                 'def aggregateCallers : List String := [' + ', '.join(lean_str(c) for c in sorted(set(callers))) + ']\n')
     parts.append('end Extracted.Attributes\n')
     return '\n'.join(parts)
 
